@@ -131,4 +131,24 @@ example : pandasMask ⟨some 20, some 20⟩ [(0, 19), (1, 20), (2, 21)] = [false
 example : selectRows (specMask ⟨some 10, some 20⟩ [9, 10, 15, 20]) ["a", "b", "c", "d"] = ["b", "c"] := by
   decide
 
+/-! ### rows whose time is NaT -/
+
+/-- The comparison mechanism of the front ends on a time column with NaT rows selects exactly
+    the property's window rows: a NaT row belongs to no context that has a bound (in particular
+    not to a window with only an `ending`), and to every context without a window. -/
+theorem C05_numpy_mask_nat (w : Window) (ts : List (Option Int)) : numpyMaskOpt w ts = specMaskOpt w ts := by
+  obtain ⟨s, e⟩ := w
+  unfold numpyMaskOpt specMaskOpt inWindowOpt inWindow geOpt ltOpt
+  cases s <;> cases e <;> simp <;> induction ts with
+  | nil => simp_all
+  | cons t ts ih => cases t <;> simp_all
+
+/-- Without NaT the two notions coincide. -/
+theorem C05_specMaskOpt_some (w : Window) (ts : List Int) : specMaskOpt w (ts.map some) = specMask w ts := by
+  simp [specMaskOpt, specMask, inWindowOpt, Function.comp_def]
+
+example : specMaskOpt ⟨none, some 20⟩ [some 5, none, some 25] = [true, false, false] := by decide
+example : numpyMaskOpt ⟨none, some 20⟩ [some 5, none, some 25] = [true, false, false] := by decide
+example : specMaskOpt ⟨none, none⟩ [some 5, none] = [true, true] := by decide
+
 end IoosQc
